@@ -4,7 +4,9 @@ import QProofs.C14
 
 All statements are unbounded in the number of outcomes, the data length, the number of sample sizes, the number of
 schedules and the number of preceding calls. `probs.take i |>.sum` is the cumulative sum `c_i` (`c_0 = 0`).
-Probabilities are rationals (every float is one); the float rounding of the running sum is not modelled (DESIGN §6).
+Probabilities are rationals (every float is one). The running sum of the model is exact; the code adds in floats. Theorems marked
+(EXACT) do not transfer to the float code on vectors whose float running sums differ from the exact ones; `r2d_hit_nonzero_any_add`
+does transfer, and the remaining case — the fall-through — is the open finding D19.
 -/
 namespace QM.C14
 
@@ -84,7 +86,37 @@ theorem r2d_interval (probs : List Rat) (hnn : ∀ p ∈ probs, 0 ≤ p) (u : Ra
     have := sum_take_le_sum probs hnn (i + 1)
     linarith
 
-/-- **C14.c `r2d_pos`** — only outcomes of non-zero probability: if `0 ≤ u < Σ probs` (entries non-negative) the
+/-- **C14.c0 `r2d_hit_nonzero_any_add`** — the clause "only outcomes of non-zero probability" in the form that TRANSFERS to the
+float code: whatever addition the running sum uses (exact, or IEEE double `+`), as long as `add c 0 = c`, a *hit* of the
+loop (`return index` inside the `for`) with `0 ≤ u` never lands on an entry that is exactly `0`. The only way to obtain a
+zero-probability outcome is the fall-through `return len − 1`, taken iff `u` is not below the LAST running sum as the code
+computed it — which in floats can happen for a normalised vector (open finding D19: `[0.1]*10 + [0.0]`, `u = 1 − 2⁻⁵³`). -/
+theorem r2d_hit_nonzero_any_add (add : Rat → Rat → Rat) (hadd : ∀ c, add c 0 = c) (probs : List Rat) (u : Rat)
+    (hu : 0 ≤ u) (i : Nat) (h : r2dLoopW add probs u 0 0 = some i) :
+    ∃ hi : i < probs.length, probs[i] ≠ 0 := by
+  obtain ⟨k, hk, hlt, hne⟩ := r2dLoopW_hit_ne_zero add hadd probs u 0 0 i (by linarith) h
+  simp only [Nat.zero_add] at hk; subst hk
+  exact ⟨hlt, hne⟩
+
+/-- the exact model is the instance `add = (+)`, and the loop only sees the running sums (driver op `r2dcs` runs it on
+the float sums of the implementation, for every vector incl. non-dyadic ones on the boundaries) -/
+theorem r2dLoop_is_instance (add : Rat → Rat → Rat) (probs : List Rat) (u : Rat) :
+    r2dLoop probs u 0 0 = r2dLoopW (· + ·) probs u 0 0 ∧
+    r2dLoopW add probs u 0 0 = r2dCums (scanAdd add 0 probs) u 0 :=
+  ⟨r2dLoop_eq_W probs u 0 0, r2dLoopW_eq_cums add probs u 0 0⟩
+
+/-- a rounding addition (everything above 9/10 collapses to 9/10) satisfies `add c 0 = c` only where needed here; with
+it the loop falls through on a normalised vector although `u < 1` — the shape of finding D19 -/
+example : r2dLoopW (fun a b => if a + b > 9/10 then 9/10 else a + b) [1/2, 1/2, 0] (19/20) 0 0 = none := by decide +kernel
+
+/-- **C14.c1 `r2d_hit_pos`** (exact arithmetic, contributed by the peer review) — no sign hypothesis on the entries (the code
+accepts entries down to `−atol`), no `u < Σ probs`: a hit has strictly positive probability. -/
+theorem r2d_hit_pos (probs : List Rat) (u : Rat) (hu : 0 ≤ u) (i : Nat) (h : r2dLoop probs u 0 0 = some i) :
+    ∃ hi : i < probs.length, 0 < probs[i] := r2dLoop_hit_pos probs u hu i h
+
+example : r2dLoop [1/2, -1/1000, 1/2 + 1/1000] (1/2) 0 0 = some 2 := by decide +kernel
+
+/-- **C14.c `r2d_pos`** (EXACT arithmetic; for the float code see `r2d_hit_nonzero_any_add` and finding D19) — only outcomes of non-zero probability: if `0 ≤ u < Σ probs` (entries non-negative) the
 outcome `i` has `probs[i] > 0`. -/
 theorem r2d_pos (probs : List Rat) (hnn : ∀ p ∈ probs, 0 ≤ p) (u : Rat) (hu : 0 ≤ u) (hlt : u < probs.sum) :
     ∃ i : Nat, ∃ hi : i < probs.length, randomNumberToData probs u = i ∧ 0 < probs[i] := by
@@ -111,7 +143,8 @@ theorem r2d_residual (probs : List Rat) (hnn : ∀ p ∈ probs, 0 ≤ p) (u : Ra
 /-- the residual branch can deliver a zero-probability outcome (sub-normalised vector, `u` just below 1) -/
 example : randomNumberToData [1/4, 1/2, 0] (7/8) = 2 := by decide +kernel
 
-/-- **C14.d `data_valid`** — generated data (`generate_data_from_prob_dist` after the uniforms are drawn): every datum
+/-- **C14.d `data_valid`** (EXACT running sums; in floats the hypothesis `u < Σ probs` must be read with the float sum, see
+D19) — generated data (`generate_data_from_prob_dist` after the uniforms are drawn): every datum
 is in range and has non-zero probability, for any number of data. -/
 theorem data_valid (probs : List Rat) (hnn : ∀ p ∈ probs, 0 ≤ p) (us : List Rat)
     (hus : ∀ u ∈ us, 0 ≤ u ∧ u < probs.sum) :
@@ -337,7 +370,15 @@ example : calcEmpiDistSequence 3 [0, 1, 2] [2, 2] = .error (.notIncreasing 1) :=
 /-- a first sample size `0` is never reached: the result is silently empty (mirrors the code) -/
 example : calcEmpiDistSequence 3 [0, 1, 2] [0] = .ok [] := by decide +kernel
 
-/-! ## seed plumbing (`to_stream`, one stream per call), for an arbitrary deterministic generator `P` -/
+/-! ## seed plumbing (`to_stream`, one stream per call), for an arbitrary deterministic generator `P`
+
+Scope (what Python does outside it is not modelled): the probability vector passes `validate_prob_dist` (otherwise Python
+raises BEFORE drawing and the stream is not advanced), an integer seed is a Python `int ≥ 0` (`MT19937` raises for negative
+seeds), sample sizes on the multinomial path are positive (`0` yields `nan`, negative raises). `to_stream` is applied once
+here; the code applies it again inside data_generator — harmless because `to_stream(generator)` is the generator itself and
+`to_stream(np.random)` is `np.random` (the `else` branch of the generated table, `toStream_table`). The plumbing functions
+(`toStream`, `genData`, `genDatasetArgs`, held / global / fresh streams) are executed against the implementation by the
+driver op `dsargs` on recorded tapes. -/
 
 /-- **C14.h `seed_int_pure`** — with an integer seed the generated data are a function of (seed, arguments) only:
 the store (global numpy state, every generator object the caller holds — i.e. all earlier calls and unrelated
@@ -367,8 +408,26 @@ theorem seed_list_entries_pure {G : Type} (P : PRNG G) (st : Store G) (jobs : Li
   | cons j rest ih =>
     simp only [List.map_cons, genDatasetArgs, seed_int_pure, ih]
 
-example : (genDatasetArgs tapePRNG ⟨⟨[], []⟩, []⟩ [(.int 3, [1/2, 1/2], 2), (.int 3, [1/2, 1/2], 2)]).map (·.1) =
-    some [[0, 0], [0, 0]] := by decide +kernel
+
+/-- anything that is neither `None`, a Python `int` nor a Generator (np.int64, bool, float …) is handed on as it is and
+cannot be drawn from: no data (Python: AttributeError at `.random`) -/
+theorem seed_other_rejected {G : Type} (P : PRNG G) (st : Store G) (probs : List Rat) (n : Nat) :
+    genData P st .other probs n = none := rfl
+
+/-- a counter PRNG on which purity and sharing are distinguishable (state = counter, uniform = (state mod 4)/4) -/
+def ctrPRNG : PRNG Nat where
+  seed := fun s => s.toNat
+  next := fun g => (((g % 4 : Nat) : Int) / 4, g + 1)
+  multi := fun g n _ => ([n, 0], g + 1)
+
+/-- two list entries with the same int seed: identical data (a fresh generator each) … -/
+example : (genDatasetArgs ctrPRNG ⟨0, []⟩ [(.int 1, [1/2, 1/2], 2), (.int 1, [1/2, 1/2], 2)]).map (·.1) =
+    some [[0, 1], [0, 1]] := by decide +kernel
+/-- … whereas one shared generator object advances, and the global state is used for `None` -/
+example : (genDatasetArgs ctrPRNG ⟨0, [1]⟩ [(.gen 0, [1/2, 1/2], 2), (.gen 0, [1/2, 1/2], 2), (.none, [1/2, 1/2], 2)]).map (·.1) =
+    some [[0, 1], [1, 0], [0, 0]] := by decide +kernel
+example : (genData ctrPRNG ⟨7, [1]⟩ (.int 2) [1/2, 1/2] 3).map (fun r => (r.1, r.2.glob, r.2.gens)) = some ([1, 1, 0], 7, [1]) := by
+  decide +kernel
 
 /-- spec pin for the dataset: schedule `k+1` continues the uniform stream where schedule `k` stopped -/
 theorem datasetPure_cons {G : Type} (P : PRNG G) (g : G) (probs : List Rat) (n : Nat) (rest : List (List Rat × Nat)) :
@@ -442,5 +501,59 @@ theorem empi_of_stream_prefix (probs : List Rat) (hnn : ∀ p ∈ probs, 0 ≤ p
 example : calcEmpiDistSequence 3 (dataOfUniforms [1/2, 1/4, 1/4] [0, 3/4, 1/2, 7/8]) [2, 4] =
     .ok [(2, [1/2, 0, 1/2]), (4, [1/4, 1/4, 1/2])] := by decide +kernel
 
+
+
+/-! ## the multinomial path (`generate_empi_dist(s)_sequence_from_prob_dist(s)`: Experiment.generate_empi_dist(s)_sequence and the
+three entry points of the four tomography classes) -/
+
+/-- spec pins -/
+theorem validEmpi_def (probs e : List Rat) : ValidEmpi probs e ↔
+    (e.length = probs.length ∧ (∀ x ∈ e, 0 ≤ x) ∧ e.sum = 1 ∧ ∀ i : Nat, probs[i]? = some 0 → e[i]? = some 0) := Iff.rfl
+
+/-- **C14.l `genEmpiSeq_valid`** — under the contract `MultiOK` of `multinomial.rvs` (counts per outcome, non-negative, summing
+to `n`, zero on zero-probability outcomes; trusted, tested by the oracle) every empirical distribution this path returns, for
+positive sample sizes, is `(n, v)` for the requested sizes in order with `v` a vector of one entry per outcome, non-negative,
+summing to one and vanishing on outcomes of probability zero — on any stream. NOT claimed (and false): cumulative consistency —
+each size is an independent draw. The tomography layer (copy of the experiment, target index, schedule-major consumption,
+transposition) is skeleton-matched by the translator and checked by the reference-stream oracle only. -/
+theorem genEmpiSeq_valid {G : Type} (P : PRNG G) (hP : MultiOK P) (probs : List Rat) :
+    ∀ (ns : List Int) (st : Store G) (s : Stream G) (r : List (Int × List Rat)) (st' : Store G) (s' : Stream G),
+      (∀ n ∈ ns, 0 < n) → genEmpiSeqOn P st s probs ns = some (r, st', s') →
+      r.map (·.1) = ns ∧ ∀ e ∈ r, ValidEmpi probs e.2 := by
+  intro ns
+  induction ns with
+  | nil =>
+    intro st s r st' s' _ h
+    simp only [genEmpiSeqOn, Option.some.injEq, Prod.mk.injEq] at h
+    obtain ⟨rfl, _, _⟩ := h
+    simp
+  | cons n ns ih =>
+    intro st s r st' s' hpos h
+    simp only [genEmpiSeqOn] at h
+    split at h
+    · cases h
+    · rename_i g hg
+      split at h
+      · cases h
+      · rename_i r0 st0 s0 hrec
+        simp only [Option.some.injEq, Prod.mk.injEq] at h
+        obtain ⟨rfl, _, _⟩ := h
+        obtain ⟨h1, h2⟩ := ih _ _ r0 st0 s0 (fun m hm => hpos m (by simp [hm])) hrec
+        refine ⟨by simp [h1], ?_⟩
+        intro e he
+        rcases List.mem_cons.1 he with rfl | he
+        · exact validEmpi_of_counts P hP g n (hpos n (by simp)) probs
+        · exact h2 e he
+
+
+/-- `ctrPRNG.multi` satisfies nothing of the contract for 3 outcomes; a PRNG that puts all `n` shots on the first outcome of
+positive probability would. Non-vacuity of the contract: the constant one-outcome sampler -/
+def oneOutcomePRNG : PRNG Unit where
+  seed := fun _ => ()
+  next := fun _ => (0, ())
+  multi := fun _ n p => (p.map fun q => if q = 1 then n else 0, ())
+
+example : (genEmpiSeqOn oneOutcomePRNG ⟨(), []⟩ .glob [0, 1, 0] [5, 7]).map (·.1) = some [(5, [0, 1, 0]), (7, [0, 1, 0])] := by
+  decide +kernel
 
 end QM.C14
